@@ -93,6 +93,16 @@ def run(ctx):
         ctx.evals += 1
         if [f.__name__ for f in default if hasattr(f, "__name__")] != [f.__name__ for f in get_analyzers()]:
             ctx.violation("build_registry", ["default"], "default registry does not contain every marked decoder after the keyword searchers")
+        # history: builds with different configurations in one process
+        seq = [((), ()), (("base64",), ()), ((), tuple(_mods())), (("shell", "hex"), ("hex",)), ((), ())]
+        for inc, exc in seq + seq:
+            reg = build_registry(tmp, include=list(inc) or None, exclude=list(exc) or None)
+            ctx.evals += 1
+            names = [getattr(f, "__name__", None) or ("kw:" + f.args[0]) for f in reg]
+            want = ["kw:only"] + [f.__name__ for f in get_analyzers(include=list(inc) or None, exclude=list(exc) or None)]
+            m = analyzers_oracle([list(inc), list(exc)], [n for n in names if not n.startswith("kw:")])
+            if names != want or m:
+                ctx.violation("build_registry", [list(inc), list(exc)], m or f"registry built after other builds in the same process: {names[:6]}... != {want[:6]}...")
     finally:
         shutil.rmtree(tmp, ignore_errors=True)
 
